@@ -290,15 +290,31 @@ def run(ctx):
               ctx.where(mod, fn))
     # pass-through branch
     br = [n for n in fn.body if isinstance(n, ast.If)]
-    ctx.anchor(len(br) == 1, 'size test in interpolate()')
-    sz = has('self.freq_coarse.size != self.freq_required.size', br[0].test)
-    eq = has('self.freq_coarse.size == self.freq_required.size', br[0].test)
-    same = br[0].orelse if sz else br[0].body
-    diff = br[0].body if sz else br[0].orelse
-    ok = (sz or eq) and len(same) == 1 and has(
+    ctx.anchor(len(br) == 1, 'pass-through / spline branch in interpolate()')
+    # after canonicalisation the branch is written with its positive test
+    FC, FR = 'self.freq_coarse', 'self.freq_required'
+    ident = [f'np.array_equal({FC}, {FR})', f'np.array_equal({FR}, {FC})',
+             f'np.all({FC} == {FR})', f'({FC} == {FR}).all()',
+             f'{FC}.size == {FR}.size and np.all({FC} == {FR})',
+             f'{FC}.size == {FR}.size and np.allclose({FC}, {FR})',
+             f'{FC}.shape == {FR}.shape and np.all({FC} == {FR})']
+    from ..core.template import same as same_t
+    pos = any(same_t(t, br[0].test) is not None for t in ident)
+    sizes = same_t(f'{FC}.size == {FR}.size', br[0].test) is not None
+    ctx.anchor(pos or sizes, 'test of the pass-through branch '
+               f'(`{ast.unparse(br[0].test)}`)')
+    same, diff = br[0].body, br[0].orelse
+    ctx.check('C20.F3.passthrough', 'interpolate: verbatim fill only for '
+              'identical frequency vectors', pos,
+              f'the data are filled in verbatim under `{ast.unparse(br[0].test)}`'
+              ': explicit input frequencies of the same number as the '
+              'required ones (but other values) are written onto the '
+              'required frequencies without interpolation',
+              ctx.where(mod, br[0]))
+    ok = len(same) == 1 and has(
         f'{out}[self.ifreq_interpolate] = {ps[1]}', same[0])
-    ctx.check('C20.F3.passthrough', 'interpolate: equal sizes pass data '
-              'through unchanged', ok, 'data supplied at the required '
+    ctx.check('C20.F3.passthrough', 'interpolate: identical frequencies pass '
+              'data through unchanged', ok, 'data supplied at the required '
               'frequencies are not passed through unchanged',
               ctx.where(mod, br[0]))
     parts = {}
